@@ -24,10 +24,11 @@ RULE = ('generated ISAs with random vocabularies (mnemonics, macro names, regist
 EXPLANATION = ('Theorems in Props/C20.lean: for plain-word vocabularies the generated alternation pattern, matched leftmost-first, '
                'takes a whole word iff the word is in the vocabulary (case-folded), independently of the order of the alternatives. '
                'Well-formedness of JSON/YAML/plist/zip written by Python libraries is tested by parsing, not proved.')
-ASSUMPTIONS = ['vocabulary names are plain words (no regex metacharacters: names are not escaped by the generators)',
+ASSUMPTIONS = ['the Lean theorems cover plain-word vocabularies; names containing a dot (ld.w) are covered by the correspondence only',
                'TextMate/Oniguruma and Sublime regex semantics agree with Python re on the generated fragment']
-MN_POOL = ['ld', 'ldx', 'ld2', 'l', 'add', 'addc', 'sub', 'b', 'mov', 'mv', 'jmp', 'j', 'sta', 'st', 'inc', 'x', 'nop', 'ret', 'subb']
-MAC_POOL = ['push2', 'mac', 'ld16', 'addw', 'm', 'retz']
+MN_POOL = ['ld', 'ldx', 'ld2', 'l', 'add', 'addc', 'sub', 'b', 'mov', 'mv', 'jmp', 'j', 'sta', 'st', 'inc', 'x', 'nop', 'ret', 'subb',
+           'ld.w', 'st.b', 'mov.l', 'ld.b']
+MAC_POOL = ['push2', 'mac', 'ld16', 'addw', 'm', 'retz', 'mac.w']
 REG_POOL = ['a', 'b2', 'ab', 'sp', 'hl', 'h', 'r0', 'r10', 'r1', 'ix']
 PRE_POOL = ['PK_A', 'pk_a', 'BUF', 'BUFFER', 'ZN_IO', 'IO', 'K1']
 COMPILER = ['org', 'memzone', 'align']
@@ -80,12 +81,14 @@ def probes(case):
     out = []
     for w in case['mns'] + case['macs'] + case['regs']:
         out += [w, w.upper(), w.capitalize(), w + 'x', 'x' + w, w + '2', w[:-1] if len(w) > 1 else w + w, w + '_', '_' + w]
+        if '.' in w:
+            out += [w.replace('.', 'x'), w.replace('.', '_'), w.replace('.', ''), w.replace('.', '0'), w.upper().replace('.', 'Q')]
     for w in case['pre']:
         out += [w, w.lower(), w.upper(), w + '2', w[:-1] if len(w) > 1 else w + w]
     out += ['zz9', 'foo', 'q']
     seen, res = set(), []
     for w in out:
-        if w not in seen and re.fullmatch(r'\w+', w):
+        if w not in seen and re.fullmatch(r'[\w.]+', w):
             seen.add(w)
             res.append(w)
     return res
@@ -102,7 +105,7 @@ def alternatives(pattern):
     body = re.sub(r'^\((?:\?:)?', '', body)
     body = re.sub(r'\)$', '', body)
     parts = [p for p in body.split('|')]
-    return [re.sub(r'^\\b|\\b$', '', p) for p in parts]
+    return [re.sub(r'\\(.)', r'\1', re.sub(r'^\\b|\\b$', '', p)) for p in parts]
 
 
 def take(pattern, text, pos=0):
